@@ -14,7 +14,7 @@ import time
 from typing import Dict, FrozenSet, Iterable, List, Optional, Set, Tuple
 
 from .callgraph import CallGraph
-from .cfg import owner_node
+from .cfg import assigned_names, owner_node
 from .src import AnalysisError, ClassInfo, FuncInfo, Module, Repo, dotted, norm, walk_local
 from .tyeng import TypeEngine, T, has
 
@@ -867,6 +867,8 @@ class FuncEval(BaseEval):
                         out |= s
                 return out
             for d in defs:
+                if node is not None and not self._reaches_with_object(d, node, name):
+                    continue                    # on every path from this definition the value was tested to be an atom / a string / None
                 if d == self.cfg.entry:
                     out |= eng.param_pts.get((fi.fq, self.ctx, name), set())
                 else:
@@ -888,6 +890,47 @@ class FuncEval(BaseEval):
         if r[0] == 'const':
             return set(eng.global_pts.get((r[1].name, r[2]), set()))
         return set()
+
+    _guard_cache: Dict[tuple, bool] = {}
+
+    def _reaches_with_object(self, d: int, use: int, name: str) -> bool:
+        """False when every CFG path from definition d to the use crosses the true edge of `is_atomic(name)`, `isinstance(name, str)` or
+        `name is None`: the value that arrives is then not a container, so it carries no abstract object (path-sensitive pruning)."""
+        key = (id(self.cfg), d, use, name)
+        hit = FuncEval._guard_cache.get(key)
+        if hit is not None:
+            return hit
+        guards = {f'is_atomic({name})', f'tree.is_atomic({name})', f'isinstance({name}, str)', f'{name} is None'}
+        has_guard = any(nd.kind == 'cond' and norm(nd.ast) in guards for nd in self.cfg.nodes)
+        res = True
+        if has_guard:
+            seen, stack = set(), [d]
+            res = False
+            first = True
+            while stack:
+                n = stack.pop()
+                if n == use and not first:
+                    res = True
+                    break
+                first = False
+                if n in seen:
+                    continue
+                seen.add(n)
+                nd = self.cfg.nodes[n]
+                if n != d and nd.kind in ('stmt', 'for') and nd.ast is not None and name in assigned_names(nd.ast):
+                    continue                    # re-bound here: definition d does not travel further on this path
+                for m, lab in self.cfg.succ[n]:
+                    if nd.kind == 'cond' and lab == 'T' and norm(nd.ast) in guards:
+                        continue
+                    if m == use:
+                        res = True
+                        stack = []
+                        break
+                    stack.append(m)
+        if len(FuncEval._guard_cache) > 200000:
+            FuncEval._guard_cache.clear()
+        FuncEval._guard_cache[key] = res
+        return res
 
     _bound_cache: Dict[str, Set[str]] = {}
 
